@@ -44,9 +44,11 @@ ENV = {"ASAN_OPTIONS": "detect_leaks=0:allocator_may_return_null=1:abort_on_erro
        "UBSAN_OPTIONS": "halt_on_error=1:abort_on_error=1"}
 
 def corr_runs(ctx):
-    return [dict(tag="h_hostile", harness="hostile", driver=None, args=[ctx.tier, ctx.seed], flavour="asan", env=ENV, timeout=3000),
-            # the plain build with other random choices (meshes, quantization, pairs, grown scripts): C03 / C18 oracles, hard crashes, hangs
-            dict(tag="h_hostile_O1", harness="hostile", driver=None, args=[ctx.tier, ctx.seed + 1000], flavour="O1", timeout=3000)]
+    runs = [dict(tag="h_hostile", harness="hostile", driver=None, args=[ctx.tier, ctx.seed], flavour="asan", env=ENV, timeout=3000)]
+    if ctx.tier == "thorough":
+        # the plain build with other random choices (meshes, quantization, pairs, grown scripts): C03 / C18 oracles, hard crashes, hangs
+        runs.append(dict(tag="h_hostile_O1", harness="hostile", driver=None, args=[ctx.tier, ctx.seed + 1000], flavour="O1", timeout=3000))
+    return runs
 
 def nontrivial(line):
     return line.rstrip().endswith("| acc") or line.rstrip().endswith("| rej-after-connectivity")
